@@ -110,7 +110,7 @@ def _graph_cases(tier, rng):
             out.append((n, bits, ()))
             if n == 4 and bits % 7 == 0:
                 out.append((n, bits, (bits % 4,)))
-    k = 300 if tier == 'quick' else 6000
+    k = 300 if tier == 'quick' else 60000
     for _ in range(k):
         n = rng.randrange(5, 10)
         bits = 0
@@ -216,7 +216,7 @@ def _check_wb(case):
 BOUNDED = [
     Stage('B1:cycle-enumeration-vs-brute-force', 'C10', _graph_cases, _check_graph,
           'every digraph on 1..4 nodes (2 + 16 + 512 + 65 536, exhaustive, self-loops included; every 7th 4-node graph also with a skipped node), '
-          'random digraphs on 5..9 nodes (300 quick / 6000 thorough): simple_cycles reports each elementary cycle exactly once',
+          'random digraphs on 5..9 nodes (300 quick / 60000 thorough): simple_cycles reports each elementary cycle exactly once',
           exhaustive=True),
     Stage('B2:small-cyclic-workbooks', 'C10', _wb_cases, _check_wb,
           '26 small workbooks (guarded / unguarded back edges through IF, IFS, IFERROR, ranges, self references, independent cycles; 5 guard values) '
